@@ -41,7 +41,10 @@ inline char LetterOf(CstType t) {
 }
 inline std::string DefText(const json& toks) { return toks.empty() ? std::string{} : rstext::Assemble(toks, true, 0).text; }
 inline std::string Words(const json& w) { std::string s; for (auto& x : w) { if (!s.empty()) s += ' '; s += x.get<std::string>(); } return s; }
-inline std::string Atoms(const json& q) { std::string s; for (auto& a : q) { if (!s.empty()) s += ' '; s += a["r"].get<bool>() ? "@{" + a["s"].get<std::string>() + "|sing,nomn}" : a["s"].get<std::string>(); } return s; }
+// atoms: plain words and entity references; optional "f" = the word form asked for, "g" = glued to the previous atom (no space)
+inline std::string Atoms(const json& q) { std::string s; for (auto& a : q) { if (!s.empty() && !a.value("g", false)) s += ' ';
+  const std::string form = a.value("f", std::string{}).empty() ? std::string("sing,nomn") : a["f"].get<std::string>();
+  s += a["r"].get<bool>() ? "@{" + a["s"].get<std::string>() + "|" + form + "}" : a["s"].get<std::string>(); } return s; }
 inline std::string AsciiType(std::string s) {
   auto rep = [&](const std::string& a, const std::string& b) { size_t p; while ((p = s.find(a)) != std::string::npos) s.replace(p, a.size(), b); };
   rep("ℬ", "B"); rep("×", "*"); return s;
